@@ -1022,6 +1022,116 @@ func c12Concurrent(r *Rng, p c12Pat, pat string, mode int) Case {
 	return c12Case(c12In{Mode: mode, Pattern: hex.EncodeToString([]byte(pat)), Workers: ws})
 }
 
+// ---- bytewise literals: the specification is "first occurrence of the literal's BYTES" ----
+// literal atoms: single ASCII byte, multi-byte runes, U+FFFD, lone invalid bytes, truncated prefixes
+var c12ByteAtoms = []string{
+	" ", ";", "|", "a", // single ASCII byte
+	"\xc3\xa9", "\xe2\x94\x82", "\xf0\x9f\x98\x80", // e-acute, box-drawing bar, 4-byte rune
+	"\xef\xbf\xbd",                 // U+FFFD itself
+	"\xff", "\xc3", "\x80", "\xfe", // lone invalid bytes (lead byte without continuation, stray continuation)
+	"\xe2\x94", "\xf0\x9f", "\xef\xbf", // truncated multi-byte prefixes
+}
+
+// other invalid / confusable sequences that are NOT the literal: they surround it in the lines
+var c12ByteNoise = []string{
+	"\xe9", "\x80", "\xbf", "\xc3", "\xff", "\xfe", "\xc0\xaf", "\xed\xa0\x80", "\xf0\x9f", "\xe2\x94", "\xef\xbf", "\xef\xbf\xbd",
+	"\xc3\xa9", "\xe2\x94\x82", "caf", "x", " ", "=", "ok", "\xf4\x90\x80\x80", "\xbd",
+}
+
+func c12ByteLit(r *Rng) string {
+	switch r.Intn(10) {
+	case 0, 1, 2, 3, 4, 5: // exactly one atom: "one rune" (or one invalid byte) literals
+		return Pick(r, c12ByteAtoms)
+	case 6, 7: // mixtures
+		return Pick(r, c12ByteAtoms) + Pick(r, c12ByteAtoms)
+	default:
+		return Pick(r, c12ByteAtoms) + Pick(r, []string{"a", " ", "="}) + Pick(r, c12ByteAtoms)
+	}
+}
+
+func c12ByteNoiseStr(r *Rng, lo, hi int) string {
+	var sb strings.Builder
+	for i, n := 0, r.Range(lo, hi); i < n; i++ {
+		sb.WriteString(Pick(r, c12ByteNoise))
+	}
+	return sb.String()
+}
+
+// pattern with such literals as leading, inner and trailing literal
+func c12BytePattern(r *Rng) c12Pat {
+	var p c12Pat
+	if r.Chance(1, 2) {
+		p.prefix = c12ByteLit(r)
+	}
+	ntok := r.Range(1, 3)
+	for i := 0; i < ntok; i++ {
+		key := fmt.Sprintf("k%d", i)
+		if r.Chance(1, 5) {
+			key = Pick(r, []string{"", "?s"})
+		}
+		until := ""
+		if i+1 < ntok || r.Chance(2, 3) {
+			until = c12ByteLit(r)
+		}
+		p.keys = append(p.keys, key)
+		p.untils = append(p.untils, until)
+	}
+	var sb strings.Builder
+	sb.WriteString(p.prefix)
+	for i := range p.keys {
+		sb.WriteString("%{" + p.keys[i] + "}" + p.untils[i])
+	}
+	p.text = sb.String()
+	return p
+}
+
+// a line for such a pattern: the literals present or absent, with OTHER invalid sequences (and
+// look-alikes: U+FFFD where the literal is \xff, a stray byte where it is U+FFFD, a prefix of the
+// literal) before, between and after them
+func c12ByteLine(r *Rng, p c12Pat) []byte {
+	var sb strings.Builder
+	omit := -2
+	if r.Chance(1, 3) {
+		omit = r.Range(-1, len(p.untils)-1)
+	}
+	sb.WriteString(c12ByteNoiseStr(r, 0, 3))
+	if omit != -1 {
+		sb.WriteString(p.prefix)
+	} else if len(p.prefix) > 1 && r.Bool() {
+		sb.WriteString(p.prefix[:len(p.prefix)-1])
+	}
+	for i, u := range p.untils {
+		sb.WriteString(c12ByteNoiseStr(r, 0, 4))
+		if len(u) > 1 && r.Chance(1, 4) { // a truncated copy of the delimiter first
+			sb.WriteString(u[:r.Range(1, len(u)-1)] + Pick(r, []string{"", "x", "\xe9"}))
+		}
+		if omit != i {
+			sb.WriteString(u)
+		}
+	}
+	sb.WriteString(c12ByteNoiseStr(r, 0, 3))
+	return []byte(sb.String())
+}
+
+func c12ByteCase(r *Rng) Case {
+	p := c12BytePattern(r)
+	n := r.Range(2, 8)
+	lines := make([][]byte, n)
+	for i := range lines {
+		lines[i] = c12ByteLine(r, p)
+	}
+	mode := 0 // the case-sensitive search is the one that is bytewise on both sides; also both modes
+	switch r.Intn(6) {
+	case 0:
+		mode = 1
+	case 1, 2:
+		mode = 2
+	}
+	c := c12MkCase(mode, p.text, lines)
+	c.Tags = append(c.Tags, "bytewise-literals(U+FFFD/invalid-bytes)")
+	return c
+}
+
 func c12Mode(r *Rng) int {
 	switch x := r.Intn(10); {
 	case x < 6:
@@ -1111,6 +1221,11 @@ func c12Fixed() []Case {
 		mk(2, "ab%{x}ab%{y}", "aabab1ab2", "abab", "ab", "ABxaB", "aab"),
 		mk(2, "%{x}aa", "aaa", "aa", "a", "baAa"),
 		mk(2, "[%{x}]@%{y}Z", "[1]@2z", "{1}`2z", "[1]@2Z"),
+		// bytewise search: literal U+FFFD / a lone invalid byte, lines with other invalid sequences
+		mk(0, "%{k0}\xef\xbf\xbd%{k1}", "user=bob\xef\xbf\xbdok", "caf\xe9 au lait\xef\xbf\xbdok", "caf\xe9 au lait", "ab\xff", "\xc3(\xef\xbf\xbdx"),
+		mk(2, "\xef\xbf\xbd%{k0} %{k1}", "\x80junk \xef\xbf\xbdkey value", "\xf0\x9f junk and no replacement"),
+		mk(0, "%{k0}\xff%{k1}", "a\xef\xbf\xbdb", "a\x80b\xffc", "\xff", "a\xc3\xa9\xffz"),
+		mk(2, "%{a}\xc3%{b}\x80", "x\xc3\xa9\xc3y\x80", "\xe9\xc3\x80", "\x80\xc3"),
 		// one instance, history: match, miss, shorter, longer, repeat
 		mk(2, "a=%{x};b=%{y} ", "a=1;b=2 ", "nothing", "a=1;b= ", "zz a=123456;b=7890 tail", "a=1;b=2 ", "A=1;B=2 ", "a=1;b=2 "),
 		// instances of one factory used at once
@@ -1150,6 +1265,8 @@ func c12Gen(r *Rng, n int, tier string) []Case {
 			pat = sb.String()
 		}
 		switch x := r.Intn(100); {
+		case x >= 88:
+			cases = append(cases, c12ByteCase(r))
 		case x < 8:
 			cases = append(cases, c12Concurrent(r, p, pat, c12Mode(r)))
 		case x < 18:
@@ -1182,6 +1299,7 @@ func main() {
 		Rule: "fixed cases (the package's test patterns, both findings' witnesses, the three compile errors) followed by seeded random: " +
 			"patterns = optional prefix literal + 0..5 tokens (named / ?named / empty; occasional duplicate name, adjacent tokens, unclosed token, trailing junk, pattern soup) with literals of length 0..4 over {a,b,A,e-acute(2 bytes),%,space} (+ rare ; B E-acute { } ? Z [ @ z), 40% ASCII-only without '%', 20% ASCII with '%'; " +
 			"1..6 lines per pattern, each built from the pattern (fillers containing a partial/complete/next delimiter or the prefix, case-flipped literals, one delimiter or the prefix omitted, junk before/after) or arbitrary bytes / alphabet soup / empty; mode in {case-sensitive, ignore-case, both}; " +
+			"12% BYTEWISE cases: literals (leading, inner, trailing) drawn from {single ASCII byte, multi-byte rune (2/3/4 bytes), U+FFFD, a lone invalid byte ff/c3/80/fe, a truncated multi-byte prefix, mixtures of two or three of these}, 2..8 lines each built from noise over {latin-1 byte, stray continuation bytes, overlong / surrogate / out-of-range sequences, truncated prefixes, U+FFFD, valid runes, ASCII} placed before, between and after the literals, with a literal omitted or truncated in a third of the lines; mostly case-sensitive (the specification is bytewise: first occurrence of the literal's bytes); " +
 			"2 (quick) / 12 (thorough) sequences of >= 3000 lines on one instance with every result re-read after the last call; " +
 			"10% SEQUENCE cases: one compiled pattern, one instance, 8..60 lines with history (fresh / exact repeat of the previous or an earlier line / proper prefix or suffix of the previous (shorter) / previous plus text or doubled (longer) / same length with one byte changed), every returned slice re-read after the last call, each result compared with the model of that line alone; " +
 			"8% CONCURRENT cases: one compiled pattern, matchers.ToFactory, 2..8 instances each with its own 2..12-line sequence: first used interleaved round-robin in one goroutine, then a fresh instance per goroutine (created inside it, released together) matching its lines for 1+1500/len rounds; per line the round-0 result is reported unless any round returned, or any held slice later re-read as, something else (then that value); every instance run is compared with the model of its own lines alone. " +
